@@ -2,6 +2,8 @@ pub(crate) mod common;
 pub mod iri;
 pub mod uri;
 pub(crate) mod utils;
+#[cfg(iref_verif)]
+pub mod verif_trace;
 
 pub use iri::{InvalidIri, Iri, IriBuf, IriError, IriRef, IriRefBuf};
 pub use uri::{InvalidUri, Uri, UriBuf, UriError, UriRef, UriRefBuf};
